@@ -363,10 +363,19 @@ def check_unit(rep, unit, registry_owner=False):
         if cls is not None and fn.args.args and fn.name != '__init__':
             selfn = fn.args.args[0].arg
             for n in ast.walk(fn):
-                if isinstance(n, (ast.Assign, ast.AugAssign)):
-                    for t in (n.targets if isinstance(n, ast.Assign) else [n.target]):
-                        if isinstance(t, ast.Attribute) and isinstance(t.value, ast.Name) and t.value.id == selfn:
-                            rep.fail('OWN.instance-state', file, qual, src(n)[:100], n.lineno, 'method assigns instance state outside __init__: shared module-level instances change between calls')
+                if isinstance(n, (ast.Assign, ast.AugAssign, ast.Delete)):
+                    for t in (n.targets if isinstance(n, (ast.Assign, ast.Delete)) else [n.target]):
+                        base = t
+                        while isinstance(base, ast.Subscript):
+                            base = base.value
+                        if isinstance(base, ast.Attribute) and isinstance(base.value, ast.Name) and base.value.id == selfn:
+                            rep.fail('OWN.instance-state', file, qual, src(n)[:100], n.lineno, 'method changes instance state outside __init__: shared module-level instances change between calls')
+                if isinstance(n, ast.Call) and isinstance(n.func, ast.Attribute) and n.func.attr in MUTATORS:
+                    base = n.func.value
+                    while isinstance(base, ast.Subscript):
+                        base = base.value
+                    if isinstance(base, ast.Attribute) and isinstance(base.value, ast.Name) and base.value.id == selfn:
+                        rep.fail('OWN.instance-state', file, qual, src(n)[:100], n.lineno, 'method mutates instance state outside __init__: shared module-level instances change between calls')
         # E: escapes
         for n in ast.walk(fn):
             if isinstance(n, (ast.Return, ast.Yield)) and n.value is not None:
